@@ -59,7 +59,17 @@ func renderVal(v Val) string {
 // fold applies the column's collation to a string for equality/ordering.
 func fold(c *Col, s string) string {
 	if c.CI {
-		return strings.ToLower(s)
+		// utf8mb4_0900_ai_ci: letter case and accents do not distinguish
+		return strings.NewReplacer("á", "a", "Á", "a", "é", "e", "É", "e").Replace(strings.ToLower(s))
+	}
+	return s
+}
+
+// runePrefix returns the first n characters of s (lengths and key prefixes count characters).
+func runePrefix(s string, n int) string {
+	r := []rune(s)
+	if len(r) > n {
+		return string(r[:n])
 	}
 	return s
 }
@@ -195,12 +205,7 @@ func keyEqual(t *TableDef, k *Key, a, b MRow) bool {
 		c := &t.Cols[ci]
 		if c.Kind == KStr && k.Prefix != nil && k.Prefix[i] > 0 {
 			xs, ys := x.(string), y.(string)
-			if len(xs) > k.Prefix[i] {
-				xs = xs[:k.Prefix[i]]
-			}
-			if len(ys) > k.Prefix[i] {
-				ys = ys[:k.Prefix[i]]
-			}
+			xs, ys = runePrefix(xs, k.Prefix[i]), runePrefix(ys, k.Prefix[i])
 			x, y = xs, ys
 		}
 		if cmpVals(c, x, y) != 0 {
@@ -272,9 +277,9 @@ func coerce(c *Col, v Val, ignore bool) (Val, rowErr, bool) {
 	if !ok {
 		return nil, "out-of-range", false
 	}
-	if len(s) > c.Len {
+	if len([]rune(s)) > c.Len {
 		if ignore {
-			return s[:c.Len], "", true
+			return runePrefix(s, c.Len), "", true
 		}
 		return nil, "out-of-range", false
 	}
